@@ -643,6 +643,10 @@ func init() {
 		// property depends on the order of less-equal elements quantifies over input permutations itself.
 		m["sort.Slice"] = sortFn
 
+		// ---------------- sync: executions are sequential (no goroutines in the model): locking is a no-op
+		for _, mname := range []string{"(*sync.Mutex).Lock", "(*sync.Mutex).Unlock", "(*sync.RWMutex).Lock", "(*sync.RWMutex).Unlock", "(*sync.RWMutex).RLock", "(*sync.RWMutex).RUnlock"} {
+			m[mname] = noop
+		}
 		// ---------------- misc no-ops
 		m["github.com/cosmos/cosmos-sdk/telemetry.ModuleMeasureSince"] = noop
 		m["github.com/cosmos/cosmos-sdk/telemetry.ModuleSetGauge"] = noop
